@@ -278,17 +278,19 @@ class NodeAssignDestructuring:
                 self.pos,
             )
         result = NULL
-        for i in range(len(self.identifiers)):
-            identifier = self.identifiers[i]
-            value = NULL
-            if i < len(values):
-                value = values[i]
+        # all or nothing: no name is assigned when one of them is undefined
+        for identifier in self.identifiers:
             if not environment.isDefined(identifier):
                 raise CklRuntimeError(
                     ValueString("ERROR"),
                     f"Variable {identifier} is not defined",
                     self.pos,
                 )
+        for i in range(len(self.identifiers)):
+            identifier = self.identifiers[i]
+            value = NULL
+            if i < len(values):
+                value = values[i]
             environment.set(identifier, value)
             result = value
         return result
